@@ -29,11 +29,17 @@ import (
 	"fmt"
 	"io"
 	"math/big"
+	"os"
+	"regexp"
+	"runtime"
+	"runtime/debug"
 	"sort"
+	"strings"
 	"sync"
 	"time"
 
 	"github.com/markkurossi/mpc/bmr"
+	"github.com/markkurossi/mpc/circuit"
 	"github.com/markkurossi/mpc/ot"
 	"github.com/markkurossi/mpc/p2p"
 	"github.com/markkurossi/mpc/vole"
@@ -303,6 +309,9 @@ type c20Op struct {
 	prefixOK   bool
 	labels     []ot.Label
 	pads       []*big.Int
+	argSnap    string // xs|ys|p before the session
+	rsSnap     string // rs right after Sender.Mul returned
+	usSnap     string
 }
 
 type c20Session struct {
@@ -312,6 +321,48 @@ type c20Session struct {
 	k0flags  []bool
 	setupErr error
 	timedOut bool
+}
+
+// c20PipeEnd is one end of an io.Pipe pair (what p2p.Pipe() wraps) with a log
+// of everything written.
+type c20PipeEnd struct {
+	r   *io.PipeReader
+	w   *io.PipeWriter
+	log *fragQueue
+}
+
+func c20NewPipePair() (*c20PipeEnd, *c20PipeEnd) {
+	ar, aw := io.Pipe()
+	br, bw := io.Pipe()
+	e0 := &c20PipeEnd{r: br, w: aw, log: &fragQueue{}}
+	e1 := &c20PipeEnd{r: ar, w: bw, log: &fragQueue{}}
+	return e0, e1
+}
+
+func (e *c20PipeEnd) Read(p []byte) (int, error) { return e.r.Read(p) }
+func (e *c20PipeEnd) Write(p []byte) (int, error) {
+	e.log.mu.Lock()
+	e.log.log = append(e.log.log, p...)
+	e.log.written += len(p)
+	e.log.mu.Unlock()
+	return e.w.Write(p)
+}
+func (e *c20PipeEnd) Close() error {
+	e.r.Close()
+	return e.w.Close()
+}
+
+func c20Snap(v []*big.Int) string {
+	var sb strings.Builder
+	for _, x := range v {
+		if x == nil {
+			sb.WriteString("nil,")
+		} else {
+			sb.WriteString(x.Text(16))
+			sb.WriteByte(',')
+		}
+	}
+	return sb.String()
 }
 
 func c20Protect(f func() error) (err error) {
@@ -327,15 +378,38 @@ func c20IsPanic(err error) bool {
 	return err != nil && len(err.Error()) >= 6 && err.Error()[:6] == "panic:"
 }
 
+// c20BaseOT, when set, replaces ot.NewCO as the base OT given to
+// vole.NewSender / vole.NewReceiver (door: every ot.OT the constructors accept).
+var c20BaseOT func(r *RNG) ot.OT
+
 // c20RunSession runs all ops of one session; both parties proceed op by op
 // (barrier after every Mul so that per-Mul traffic can be attributed).
 func c20RunSession(rng *RNG, ops []*c20Op, maxFrag int, timeout time.Duration) *c20Session {
 	s := &c20Session{ops: ops}
-	d0, d1, q01, q10 := newDuplexPair(rng.Fork(), maxFrag)
+	var d0, d1 interface {
+		io.ReadWriter
+		Close() error
+	}
+	var q01, q10 *fragQueue
+	if maxFrag < 0 {
+		// the transport of p2p.Pipe() (synchronous io.Pipe in both directions), with a byte log
+		e0, e1 := c20NewPipePair()
+		d0, d1, q01, q10 = e0, e1, e0.log, e1.log
+	} else {
+		d0, d1, q01, q10 = newDuplexPair(rng.Fork(), maxFrag)
+	}
 	c0 := p2p.NewConn(d0)
 	c1 := p2p.NewConn(d1)
-	sOT := &c20RecOT{OT: ot.NewCO(rng.Fork())}
-	rOT := &c20RecOT{OT: ot.NewCO(rng.Fork())}
+	// snapshots: arguments must be unchanged by Mul, results by later calls
+	for _, op := range ops {
+		op.argSnap = c20Snap(op.xs) + "|" + c20Snap(op.ys) + "|" + op.p.Text(16)
+	}
+	mkBase := func(r *RNG) ot.OT { return ot.NewCO(r) }
+	if c20BaseOT != nil {
+		mkBase = c20BaseOT
+	}
+	sOT := &c20RecOT{OT: mkBase(rng.Fork())}
+	rOT := &c20RecOT{OT: mkBase(rng.Fork())}
 	rngS, rngR := rng.Fork(), rng.Fork()
 
 	type step struct{ s, r chan struct{} }
@@ -393,6 +467,7 @@ func c20RunSession(rng *RNG, ops []*c20Op, maxFrag int, timeout time.Duration) *
 				op.rs, err = snd.Mul(op.xs, op.p)
 				return err
 			})
+			op.rsSnap = c20Snap(op.rs)
 			if op.sErr != nil {
 				kill()
 			}
@@ -431,6 +506,7 @@ func c20RunSession(rng *RNG, ops []*c20Op, maxFrag int, timeout time.Duration) *
 				op.us, err = rcv.Mul(op.ys, op.p)
 				return err
 			})
+			op.usSnap = c20Snap(op.us)
 			if op.rErr != nil {
 				kill()
 			}
@@ -798,6 +874,21 @@ func c20Finish(c *Ctx, s *c20Session, aesMode bool, allSlices bool, what string)
 		return
 	}
 	for _, op := range s.ops {
+		// doors "arguments re-used after the call" / "results kept across later calls"
+		if op.argSnap != "" && op.argSnap != c20Snap(op.xs)+"|"+c20Snap(op.ys)+"|"+op.p.Text(16) {
+			c.Fail(fmt.Sprintf("c20:vole:%s:arguments-modified-by-Mul", op.class), what+": xs, ys or p differ after the session",
+				c20Replay{Seed: c.Seed, Part: "vole", Modulus: op.p.Text(16), M: len(op.xs), Detail: what})
+		}
+		if op.sErr == nil && op.rErr == nil && (op.rsSnap != c20Snap(op.rs) || op.usSnap != c20Snap(op.us)) {
+			c.Fail(fmt.Sprintf("c20:vole:%s:results-changed-by-later-call", op.class), what+": a returned vector changed after Mul returned",
+				c20Replay{Seed: c.Seed, Part: "vole", Modulus: op.p.Text(16), M: len(op.xs), Detail: what})
+		}
+		// a nil element of the receiver's vector is written as 0 by bytes32: check it as 0
+		for i := range op.ys {
+			if op.ys[i] == nil {
+				op.ys[i] = new(big.Int)
+			}
+		}
 		m := len(op.xs)
 		if m > 0 && (op.rs != nil || op.us != nil || (op.sErr == nil && op.rErr == nil)) {
 			op.labels = st.next(m)
@@ -1138,12 +1229,21 @@ func c20Direct(c *Ctx, pr *c20FxPair, rng *RNG, n int) error {
 // met in every phase.  The oracle is the unchanged share relation, per call.
 func c20FxHistories(c *Ctx, rng *RNG, rd *c20Reader) error {
 	for _, impl := range c20OTImpls() {
+		if err := c20FxHistory(c, rng, rd, impl, c.N(3, 12)); err != nil {
+			return err
+		}
+	}
+	c.Note("ot.ROT is a random OT (Send overwrites the offered wires): the chosen-message gadgets Fx/Fxk do not apply to it")
+	return nil
+}
+
+func c20FxHistory(c *Ctx, rng *RNG, rd *c20Reader, impl c20OTImpl, rounds int) error {
+	{
 		pr, err := c20NewFxPairOver(rng, impl)
 		if err != nil {
 			c.Fail(fmt.Sprintf("c20:Fx:over-%s:init", impl.name), err.Error(), c20Replay{Seed: c.Seed, Part: "fx", Over: impl.name})
-			continue
+			return nil
 		}
-		rounds := c.N(3, 12)
 		sizes := []int{3, 8, 9, 1, 17}
 		for round := 0; round < rounds; round++ {
 			for a := uint(0); a < 2; a++ {
@@ -1174,7 +1274,6 @@ func c20FxHistories(c *Ctx, rng *RNG, rd *c20Reader) error {
 		}
 		c.Note("gadget history over %s: %d transfers on one pair", impl.name, pr.call)
 	}
-	c.Note("ot.ROT is a random OT (Send overwrites the offered wires): the chosen-message gadgets Fx/Fxk do not apply to it")
 	return nil
 }
 
@@ -1480,6 +1579,172 @@ func c20ConcFree(c *Ctx, rng *RNG, impl c20OTImpl, fxk bool, n, rounds int) erro
 	return nil
 }
 
+// c20RunPlayers: the real caller of Fx/Fxk — n bmr.Players with n-1 peers each
+// (one consumer goroutine per peer calling FxReceive/FxkReceive, the Play
+// goroutine calling FxSend/FxkSend), on AND-only circuits.  bmr.Player has no
+// online phase and returns no result; what it prints (fmt.Printf to
+// os.Stdout) is each player's final lambda vector (Verbose) and its share
+// of lambda_u*lambda_v per gate: the shares of all players must XOR to the
+// product of the XORed lambdas — the Fx relation summed over all ordered
+// pairs of players.  (The Fxk shares rj are printed piecewise and not
+// checked here.)  Oracle-only.
+var c20ReLambda = regexp.MustCompile("\u03bb([\u2070\u00b9\u00b2\u00b3\u2074-\u2079]+):\t([01]+)")
+var c20ReLuv = regexp.MustCompile("Player([\u2070\u00b9\u00b2\u00b3\u2074-\u2079]+): \u03bbuv =([01]+)")
+
+func c20SupID(s string) int {
+	id := 0
+	for _, r := range s {
+		d := 0
+		switch r {
+		case 0x2070:
+			d = 0
+		case 0xb9:
+			d = 1
+		case 0xb2:
+			d = 2
+		case 0xb3:
+			d = 3
+		default:
+			d = int(r - 0x2070)
+		}
+		id = id*10 + d
+	}
+	return id
+}
+
+func c20RunPlayers(c *Ctx) error {
+	rng := c.rng.Fork()
+	for run := 0; run < c.N(4, 30); run++ {
+		n := 2 + run%3 // 2, 3, 4 players
+		// AND-only circuit: n one-bit inputs, g gates over earlier wires
+		g := 2 + rng.Intn(7)
+		circ := &circuit.Circuit{NumGates: g, NumWires: n + g}
+		for i := 0; i < n; i++ {
+			circ.Inputs = append(circ.Inputs, circuit.IOArg{Name: fmt.Sprintf("i%d", i), Type: uintInfo(1)})
+		}
+		circ.Outputs = circuit.IO{{Name: "o", Type: uintInfo(1)}}
+		for k := 0; k < g; k++ {
+			w := n + k
+			in0 := rng.Intn(w)
+			in1 := rng.Intn(w)
+			if k < n-1 { // use every input
+				in0, in1 = k+1, k
+				if k > 0 {
+					in1 = n + k - 1
+				}
+			}
+			circ.Gates = append(circ.Gates, circuit.Gate{Input0: circuit.Wire(in0), Input1: circuit.Wire(in1), Output: circuit.Wire(w), Op: circuit.AND})
+		}
+		// capture stdout
+		oldOut := os.Stdout
+		pr, pw, err := os.Pipe()
+		if err != nil {
+			return err
+		}
+		os.Stdout = pw
+		outc := make(chan []byte, 1)
+		go func() { b, _ := io.ReadAll(pr); outc <- b }()
+
+		players := make([]*bmr.Player, n)
+		var setupErr error
+		for i := 0; i < n && setupErr == nil; i++ {
+			players[i], setupErr = bmr.NewPlayer(i, n)
+			if setupErr == nil {
+				setupErr = players[i].SetCircuit(circ)
+				players[i].Verbose = true
+			}
+		}
+		errs := make([]error, n)
+		stalled := false
+		if setupErr == nil {
+			for i := 0; i < n; i++ {
+				for j := i + 1; j < n; j++ {
+					cf, ct := ot.NewPipe()
+					sf, st := ot.NewPipe()
+					players[i].AddPeer(j, cf, st)
+					players[j].AddPeer(i, sf, ct)
+				}
+			}
+			var wg sync.WaitGroup
+			for i := 0; i < n; i++ {
+				i := i
+				wg.Add(1)
+				go func() {
+					defer wg.Done()
+					errs[i] = c20Protect(func() error { return players[i].Play() })
+				}()
+			}
+			done := make(chan struct{})
+			go func() { wg.Wait(); close(done) }()
+			select {
+			case <-done:
+			case <-time.After(20 * time.Second):
+				stalled = true
+			}
+		}
+		os.Stdout = oldOut
+		pw.Close()
+		out := <-outc
+		pr.Close()
+		rep := c20Replay{Seed: c.Seed, Part: "player", M: g, Detail: fmt.Sprintf("%d players, gates %v", n, circ.Gates)}
+		if stalled {
+			// liveness of bmr.Player is not a subject of C20 (shares of the values
+			// returned): recorded, not checked; the leftover goroutines end the family
+			c.Note("player run %d (%d players, %d gates): Play did not return within 20 s: not checked", run, n, g)
+			c.Hist("player:stalled")
+			return nil
+		}
+		if setupErr != nil {
+			c.Fail("c20:Player:run", setupErr.Error(), rep)
+			return nil
+		}
+		for i, e := range errs {
+			if e != nil {
+				c.Fail("c20:Player:run", fmt.Sprintf("player %d: %v", i, e), rep)
+				return nil
+			}
+		}
+		lam := make(map[int]string)
+		luv := make(map[int]string)
+		for _, m := range c20ReLambda.FindAllStringSubmatch(string(out), -1) {
+			lam[c20SupID(m[1])] = m[2] // the last one printed is the final vector
+		}
+		for _, m := range c20ReLuv.FindAllStringSubmatch(string(out), -1) {
+			luv[c20SupID(m[1])] = m[2]
+		}
+		if len(lam) != n || len(luv) != n {
+			c.Note("player run %d: diagnostic output not parseable (%d lambda, %d luv lines of %d): not checked", run, len(lam), len(luv), n)
+			continue
+		}
+		bit := func(s string, i int) uint {
+			if i >= len(s) {
+				return 0
+			}
+			return uint(s[len(s)-1-i] - '0')
+		}
+		c.Hist(fmt.Sprintf("player:n=%d", n))
+		for k, gate := range circ.Gates {
+			var lu, lv, share uint
+			for i := 0; i < n; i++ {
+				lu ^= bit(lam[i], int(gate.Input0))
+				lv ^= bit(lam[i], int(gate.Input1))
+				share ^= bit(luv[i], k)
+			}
+			c.Eval(fmt.Sprintf("player:%d:%d:%d:%d:%d", run, n, k, lu, lv), lu == 1 && lv == 1)
+			if share != lu&lv {
+				rep.Index = k
+				rep.History = nil
+				for i := 0; i < n; i++ {
+					rep.History = append(rep.History, fmt.Sprintf("player %d: lambda=%s luv-share=%s", i, lam[i], luv[i]))
+				}
+				c.Fail("c20:Player:lambda-product-shares-do-not-recombine",
+					fmt.Sprintf("gate %d (%d AND %d): XOR of the players' shares = %d, lambda_u*lambda_v = %d", k, gate.Input0, gate.Input1, share, lu&lv), rep)
+			}
+		}
+	}
+	return nil
+}
+
 func c20RunConcurrent(c *Ctx) error {
 	rng := c.rng.Fork()
 	for _, impl := range c20OTImpls() {
@@ -1563,6 +1828,25 @@ func c20RunFx(c *Ctx) error {
 	if err := c20FxHistories(c, rng, rd); err != nil {
 		return err
 	}
+	// door: runtime configuration — one processor, a collection at every allocation
+	{
+		oldGC := debug.SetGCPercent(1)
+		oldP := runtime.GOMAXPROCS(1)
+		var err error
+		for _, impl := range c20OTImpls() {
+			if impl.name == "co" || impl.name == "cot" {
+				impl.name += "+GOGC=1,GOMAXPROCS=1"
+				if err = c20FxHistory(c, rng, rd, impl, 1); err != nil {
+					break
+				}
+			}
+		}
+		debug.SetGCPercent(oldGC)
+		runtime.GOMAXPROCS(oldP)
+		if err != nil {
+			return err
+		}
+	}
 	if rd.short > 0 {
 		c.Note("crypto/rand reader was asked for %d bytes more than queued", rd.short)
 	}
@@ -1606,6 +1890,30 @@ func c20MkOps(r *RNG, p *big.Int, lens []int, class string) []*c20Op {
 		op := &c20Op{class: class, p: p}
 		if class == "sweep" {
 			op.xs, op.ys, op.kinds = c20SweepVectors(r, p, m)
+		} else if class == "aliased" {
+			// the same *big.Int at several positions, the modulus object itself as an
+			// element, the same object in the sender's and the receiver's vector
+			op.xs, op.ys, op.kinds = c20SweepVectors(r, p, m)
+			X, Y := c20Rand(r, p), c20Rand(r, p)
+			for i := 0; i < m; i++ {
+				switch i % 5 {
+				case 0, 1:
+					op.xs[i], op.ys[i], op.kinds[i] = X, Y, "X*Y"
+				case 2:
+					op.xs[i], op.ys[i], op.kinds[i] = p, Y, "(p itself)*Y"
+				case 3:
+					op.xs[i], op.ys[i], op.kinds[i] = X, X, "X*X(shared object)"
+				default:
+					if p.BitLen() <= 256 && p.Cmp(c20Pow2(256)) < 0 {
+						op.ys[i], op.kinds[i] = p, "x*(p itself)"
+					}
+				}
+			}
+		} else if class == "nil-y" {
+			op.xs, op.ys, op.kinds = c20SweepVectors(r, p, m)
+			for i := 0; i < m; i += 3 {
+				op.ys[i], op.kinds[i] = nil, "x*nil"
+			}
 		} else {
 			op.xs, op.ys, op.kinds = c20Vectors(r, p, m, class == "unreduced")
 		}
@@ -1729,6 +2037,67 @@ func runC20(c *Ctx) error {
 			c20Finish(c, j.s, true, true, fmt.Sprintf("concurrent-vole:%d", i))
 		}
 	}
+	// (g) doors of the vole API beyond "fresh vectors of field elements":
+	// aliased arguments, nil elements in the receiver's vector, the transport of
+	// p2p.Pipe(), a long-lived pair with many small Mul calls, vectors whose
+	// messages cross the 64 KiB p2p write buffer, one processor with GOGC=1.
+	{
+		p64 := new(big.Int).Sub(c20Pow2(64), big.NewInt(59))
+		r := c.rng.Fork()
+		var ops []*c20Op
+		for _, p := range []*big.Int{mods[0].p, p64, big.NewInt(65537)} {
+			ops = append(ops, c20MkOps(r, p, []int{11, 3}, "aliased")...)
+			ops = append(ops, c20MkOps(r, p, []int{7, 1}, "nil-y")...)
+		}
+		s := c20RunSession(r, ops, -1, sessTimeout)
+		c20Finish(c, s, true, true, "aliased+nil-y over io.Pipe")
+
+		// long-lived pair
+		r = c.rng.Fork()
+		ops = nil
+		lp := []*big.Int{mods[0].p, p64, big.NewInt(3), mods[4].p}
+		for k := 0; k < c.N(40, 400); k++ {
+			ops = append(ops, c20MkOps(r, lp[k%len(lp)], []int{1 + r.Intn(9)}, "sweep")...)
+		}
+		s = c20RunSession(r, ops, -1, sessTimeout)
+		c20Finish(c, s, true, true, "long-lived pair")
+
+		// messages larger than the p2p write buffer (m*32 > 64 KiB)
+		r = c.rng.Fork()
+		ops = c20MkOps(r, mods[0].p, []int{2047, 2048, 2049, 4097}, "field")
+		ops = append(ops, c20MkOps(r, p64, []int{2049}, "sweep")...)
+		s = c20RunSession(r, ops, []int{0, -1}[r.Intn(2)], sessTimeout)
+		c20Finish(c, s, false, thorough, "write-buffer boundary")
+
+		// runtime configuration
+		oldGC := debug.SetGCPercent(1)
+		oldP := runtime.GOMAXPROCS(1)
+		r = c.rng.Fork()
+		ops = c20MkOps(r, p64, []int{1, 17, 64}, "sweep")
+		ops = append(ops, c20MkOps(r, mods[0].p, []int{2, 64, 130}, "sweep")...)
+		s = c20RunSession(r, ops, 0, sessTimeout)
+		debug.SetGCPercent(oldGC)
+		runtime.GOMAXPROCS(oldP)
+		c20Finish(c, s, true, true, "GOGC=1,GOMAXPROCS=1")
+
+		// every other ot.OT as the base OT of NewSender/NewReceiver: an explicit
+		// error is fine (the constructors use the base OT in the reverse role);
+		// a session that comes up must satisfy the relation
+		for _, impl := range c20OTImpls()[1:] {
+			r = c.rng.Fork()
+			c20BaseOT = impl.mk
+			ops = c20MkOps(r, mods[0].p, []int{5}, "sweep")
+			s = c20RunSession(r, ops, 0, 15*time.Second)
+			c20BaseOT = nil
+			if s.setupErr != nil {
+				c.Note("vole over base OT %s: constructors return an explicit error: %v", impl.name, s.setupErr)
+				c.Hist("vole:base-ot:" + impl.name + ":explicit-error")
+				continue
+			}
+			c.Hist("vole:base-ot:" + impl.name + ":session")
+			c20Finish(c, s, true, true, "base-ot:"+impl.name)
+		}
+	}
 	// (d) probes outside the domain of the property (correspondence only):
 	// negative y, y >= 2^256, p = 0, negative p, p > 2^256 with a large share
 	{
@@ -1785,6 +2154,9 @@ func runC20(c *Ctx) error {
 		old := crand.Reader
 		crand.Reader = &c20Reader{fall: c.rng.Fork()}
 		err := c20RunConcurrent(c)
+		if err == nil {
+			err = c20RunPlayers(c)
+		}
 		crand.Reader = old
 		if err != nil {
 			return err
